@@ -21,7 +21,7 @@ CHECKS = {
   "C13": ("E1-simnet-explorer", "model_checking",
    "exhaustive enumeration of join orders, start timings, bootstrap-list shapes and IP plans over networks of real nodes on the simulated network",
    "Networks of 1..3 (quick) / 1..4 (thorough) real server nodes plus fixed 8- and 20-node shapes: every permutation of id classes over join positions x 5 start timings x 4 bootstrap-list shapes x public/private plan; bootstrapped() results, table contents, strong connectivity of the knows-graph, 'every lookup asks every server' (from the datagram log) and the dead-list verdict are checked on every network. What Info and to_bootstrap() report is compared with each node's state right after the joins and at the end; networks of 1..10 (thorough ..30) nodes are also built by the library's own blocking Testnet::new inside the simulated world and judged the same way. Thorough: 50-, 100- and 300-node networks with the connectivity verdict.",
-   "Loss-free network; sizes above 20 not explored.", "DESIGN.md section 6, C13"),
+   "Loss-free network; above 20 joiners only the connectivity verdict (thorough tier: up to 300 nodes).", "DESIGN.md section 6, C13"),
   "C18": ("E1-simnet-explorer", "model_checking",
    "exhaustive enumeration of request kinds, read-only flag assignments and NAT x vote x configuration timelines on real nodes over a simulated network with a virtual clock",
    "Real client and server nodes on the simulated network: every request kind (valid and every single-field deviation) to a client; scripted requesters with every ro flag value against servers with/without a bootstrap list; every subset of responders / storers flagging ro on lookups and on put acknowledgements; adaptive, explicit-server and public_ip nodes over 35 virtual minutes for every NAT rule and vote pattern (thorough: plus every single lost datagram in the first 10 s). The mode switch, the self ping, the firewalled flag and table contents are read from snapshots and the datagram log. The public Info accessors are compared with that state, and every adaptive / public_ip timeline is run again with the application calling bootstrapped() at minutes 10 and 24. Five vote patterns (the lying minority below / above the true address / true IP with a higher port), a DHT node sharing the observed node's public IP that pings it, and a configured request filter that must still be consulted after the node became a server.",
@@ -29,7 +29,7 @@ CHECKS = {
   "C05": ("E3-enumeration", "exploration",
    "bounded-exhaustive grammar enumeration through the real decoder (catch_unwind) and delivery of the single-deviation neighbourhood to live real nodes on the simulated network, followed by liveness probes",
    "All single and double field-level deviations (17 classes x every field), every subset of fields absent, and structural damage of all 17 KRPC message shapes go through the real decoder; every single-deviation datagram is delivered to live server- and client-mode nodes, as the (right address, right tid) reply to every lookup kind and - with all error codes and code mixes in all arrival orders - to every put kind; all reply-latency timelines of length 7 (quick) / 9 (thorough) over {10 ms, 520 ms, 3 s}. Actor threads must survive, probes (ping, info, put+get) must succeed, no API future may panic. Hostile contents of the right type are included (multi-byte and invalid UTF-8 in every text field at every byte alignment, keys that are not curve points, the receiver's own id and address, zero ports, extreme integers, the longest lists a datagram carries), and every write-shaped datagram is delivered a second time with a token the server has just issued to the sender.",
-   "A grammar neighbourhood, not all byte strings; release arithmetic.", "DESIGN.md section 6, C05"),
+   "A grammar neighbourhood, not all byte strings; optimised build with integer overflow checks on.", "DESIGN.md section 6, C05"),
   "C17": ("E1-simnet-explorer", "model_checking",
    "exhaustive enumeration of second-call relations x placements and of storer reply splits x arrival orders against a real node over a simulated network",
    "A real node with scripted storers: the second put_mutable in every relation (identical / lower / equal-other / higher seq x cas none / matching / other x salted or not) is placed before every event of the first put's lifetime and after it, with the expected local verdict derived from whether the node's snapshot shows the first put in flight; every split of ack/301/302 among 3 (quick) / 3-4 (thorough) storers in every arrival order for mutable puts, and for the other put kinds through the typed sync-equivalent async APIs. Both parts are also run through the blocking Dht API; an accepted second put must reach a storer; every storer reply is also delivered two and three times (one vote all the same).",
@@ -49,7 +49,7 @@ CHECKS = {
   "C08": ("E1-simnet-explorer", "model_checking",
    "exhaustive enumeration of storer behaviours and reply arrival orders against a real writer node over a simulated network, oracle computed from the network log",
    "A real writer runs every put kind against 1-3 (quick) / 1-4 (thorough) scripted storing endpoints under every assignment of {no token, ack, 203, 205, 301, 302, 201, silence, late ack, ack flagged ro=1} and every arrival order, plus replica sets of 255/256/257/300 nodes through extra_nodes; the result is judged against which acknowledgements and 301/302 replies the log shows were delivered in time, and every write datagram is checked to go to a token issuer with its own token. A put in its store phase is also crossed with another lookup of the same target that ends with tokens, without tokens, with errors only or in silence; the main matrix is repeated through the blocking Dht API. Puts on a slow network: the request timeout has adapted (read from the snapshot), 1..24 storers acknowledge 40 ms inside it, with and without a warm-up put.",
-   "Release arithmetic (no overflow checks); replies faster than 500 ms count as in time.", "DESIGN.md section 6, C08"),
+   "Optimised build with integer overflow checks on; acknowledgements delivered before the request timeout current at that time count as in time.", "DESIGN.md section 6, C08"),
   "C09": ("E1-simnet-explorer", "model_checking",
    "deviation-bounded exhaustive exploration of adversarial injections and reply faults on a real node over a simulated network, differential oracle against the unperturbed run",
    "A real node (real actor thread, socket layer and codec) runs a lookup and a put over scripted endpoints; at every network event an adversary may inject every (kind x guessable transaction id x wrong source) message, and every genuine reply may be duplicated, lost, delayed past its timeout or both; all single deviations (quick), pairs of injections over the sharpest kinds (thorough) and all pairs of reply fates with a silent node keeping the lookup open (at-most-once oracle) are enumerated, as is every start position of the node's transaction-id counter around the 16-bit boundary and the 32-bit wrap-around (differential against the fresh node) and each execution's observable outcome (call results, routing tables, cached nodes, address votes, stored values) must equal the unperturbed one. On a node whose ids are above 65536 the addressed peer itself sends ids congruent to the outstanding one modulo 65536 (or its two low bytes) before the genuine reply; a request sent to an unspecified address is answered from another port. A timed-out but still listed request is answered from a wrong address while a younger request keeps the lookup open; genuine replies are duplicated on a node whose ids straddle the 32-bit wrap.",
